@@ -160,10 +160,17 @@ def run_tlc(wd, module, cfg, *, workers=None, env=None, timeout=3600, simulate=N
 
 def load_findings():
     p = os.path.join(ROOT, "known_findings.json")
-    if not os.path.exists(p):
-        return []
-    with open(p) as f:
-        return json.load(f)["findings"]
+    out = []
+    if os.path.exists(p):
+        with open(p) as f:
+            out = json.load(f)["findings"]
+    d = os.path.join(ROOT, "known_findings.d")          # per-property fragments, merged on integration
+    if os.path.isdir(d):
+        for fn in sorted(os.listdir(d)):
+            if fn.endswith(".json"):
+                with open(os.path.join(d, fn)) as f:
+                    out += json.load(f)["findings"]
+    return out
 
 
 class Findings:
